@@ -487,7 +487,11 @@ def _nested_run_resolves(
     if source == ValueSource.DEFAULT:
         return True
     if source == ValueSource.BOUND and param not in graph._bound:
-        return node._resolve_original_input_name(param) in node._graph.inputs.bound
+        original = node._resolve_original_input_name(param)
+        # (an input that is also an output of the nested graph - the upstream
+        # value of a graph entered below its first node - is still handed down:
+        # the nested run echoes what it was given under that name)
+        return original in node._graph.inputs.bound and original not in node._graph.outputs
     return False
 
 
